@@ -150,7 +150,18 @@ def abscissae(cp, R):
         "len2": np.array([cp + 1e-7, cp - 2e-7]),
         "len3": np.array([cp + 1e-7, cp - 1e-7, cp - 2e-7]),
         "long": cp - np.linspace(-1e-6, min(R, 2e-6), 900),
+        # measured abscissae are noisy: clearly oriented, but the first
+        # (and last) two samples are locally out of order
+        "descending-noisy-ends": _swap_ends(desc),
+        "ascending-noisy-ends": _swap_ends(desc[::-1].copy()),
     }
+
+
+def _swap_ends(a):
+    a = a.copy()
+    a[0], a[1] = a[1], a[0]
+    a[-1], a[-2] = a[-2], a[-1]
+    return a
 
 
 def make_params(mk, values):
